@@ -80,15 +80,14 @@ func (in *Interp) floorDiv(n, d *sym.Term) *sym.Term {
 	}
 	in.varSeq["$q"]++
 	k := in.varSeq["$q"]
-	q := f.Var(fmt.Sprintf("|$q%d|", k), sym.SInt, nil, nil)
+	var qlo, qhi *big.Int
+	if n.Lo != nil && n.Lo.Sign() >= 0 && d.Lo != nil && d.Lo.Sign() >= 0 {
+		qlo, qhi = big.NewInt(0), n.Hi
+	}
+	q := f.Var(fmt.Sprintf("|$q%d|", k), sym.SInt, qlo, qhi)
 	r := f.Var(fmt.Sprintf("|$r%d|", k), sym.SInt, big.NewInt(0), nil)
 	in.assertPC(f.Eq(n, f.Add(f.Mul(q, d), r)))
 	in.assertPC(f.Lt(r, d))
-	// bounds for q when both non-negative
-	if n.Lo != nil && n.Lo.Sign() >= 0 && d.Lo != nil && d.Lo.Sign() >= 0 {
-		f.Bounded(q, big.NewInt(0), n.Hi)
-		in.assertPC(f.Ge(q, f.Int(0)))
-	}
 	return q
 }
 
@@ -269,7 +268,7 @@ func registerNatives(ex *Explorer) {
 		s := a[0].(SliceVal)
 		parts := make([]string, s.Len)
 		for i := range parts {
-			parts[i] = str(in.load(s.Arr.Elems[s.Off+i]))
+			parts[i] = str(in.sget(s, i))
 		}
 		return strings.Join(parts, str(a[1]))
 	}
@@ -335,10 +334,10 @@ func registerNatives(ex *Explorer) {
 		// insertion sort on concrete strings
 		for i := 1; i < s.Len; i++ {
 			for j := i; j > 0; j-- {
-				x := str(in.load(s.Arr.Elems[s.Off+j-1]))
-				y := str(in.load(s.Arr.Elems[s.Off+j]))
+				x := str(in.sget(s, j-1))
+				y := str(in.sget(s, j))
 				if y < x {
-					s.Arr.Elems[s.Off+j-1].V, s.Arr.Elems[s.Off+j].V = y, x
+					in.scell(s, j-1).V, in.scell(s, j).V = y, x
 				} else {
 					break
 				}
@@ -354,11 +353,11 @@ func registerNatives(ex *Explorer) {
 }
 
 func (in *Interp) stringSlice(parts []string) SliceVal {
-	s := in.makeSlice(types.Typ[types.String], len(parts), len(parts))
+	vals := make([]Value, len(parts))
 	for i, p := range parts {
-		s.Arr.Elems[i].V = p
+		vals[i] = p
 	}
-	return s
+	return in.sliceFrom(types.Typ[types.String], vals)
 }
 
 // symSplit splits a symbolic string on a one-byte separator, deciding for each
@@ -378,11 +377,7 @@ func (in *Interp) symSplit(s *SymStr, sep string, fn *ssa.Function) Value {
 		}
 	}
 	parts = append(parts, in.normStr(cur))
-	sl := in.makeSlice(types.Typ[types.String], len(parts), len(parts))
-	for i, p := range parts {
-		sl.Arr.Elems[i].V = p
-	}
-	return sl
+	return in.sliceFrom(types.Typ[types.String], parts)
 }
 
 func (in *Interp) normStr(s *SymStr) Value {
@@ -415,6 +410,7 @@ func (in *Interp) sortSlice(s SliceVal, less Value, stable bool) {
 	if n < 2 {
 		return
 	}
+	in.ensureAgg(s.Arr)
 	cells := s.Arr.Elems[s.Off : s.Off+n]
 	swap := func(i, j int) {
 		vi, vj := in.load(cells[i]), in.load(cells[j])
@@ -447,7 +443,7 @@ func (in *Interp) sortSlice(s SliceVal, less Value, stable bool) {
 func (in *Interp) sprintf(format string, args SliceVal, strict bool) string {
 	nat := make([]interface{}, args.Len)
 	for i := 0; i < args.Len; i++ {
-		nat[i] = in.toNative(in.load(args.Arr.Elems[args.Off+i]), strict)
+		nat[i] = in.toNative(in.sget(args, i), strict)
 	}
 	return fmt.Sprintf(format, nat...)
 }
